@@ -118,6 +118,12 @@ def body(run):
         model = ik.MODELS[k % 3]
         scale = rng.choice([1.0, 3.0, 400.0, -1.0])       # push values over integer ranges / below zero
         ref = pair['ref'] * np.float32(scale)
+        if k % 3 == 0 and not sparse:
+            # a VALID area of zeros larger than the kernel (open water in a dark band): its kernel sums vanish, the gain is not finite there and the
+            # corrected value is NaN - invalid in the float32 run, so invalid in every other encoding as well
+            sh_ = g.src_shape
+            r0_, c0_ = sh_[0] // 2 - 4, sh_[1] // 2 - 4
+            pair['src'][:, max(0, r0_):r0_ + 8, max(0, c0_):c0_ + 8] = 0
         pair = fz.make_pair(run.work, g, rng, bands=nbands, src=pair['src'], ref=ref, smask=pair['smask'], tag='e')
         # every other group also writes the parameter image: it is float32 / NaN whatever the corrected image's profile says (C14: it holds
         # the parameters), so it must be identical across output profiles
